@@ -100,6 +100,14 @@ func runDiamond(c C14Case, v2 bool, intents []kit.Intent) error {
 			if aerr != nil {
 				return fmt.Errorf("the set assembled for %v is rejected by a fresh node: %v (order %v)", target.ID(), aerr, txIDs(got))
 			}
+			// the returned set is the caller's own memory
+			snap := encV2s(node.CM.V2PoolTransactions())
+			for i := range got {
+				mutateV2(&got[i], i+1)
+			}
+			if !sameEnc(snap, encV2s(node.CM.V2PoolTransactions())) {
+				return fmt.Errorf("mutating the set V2TransactionSet returned for %v (%d transactions) changed the pool", target.ID(), len(got))
+			}
 		}
 		return nil
 	}
